@@ -201,8 +201,8 @@ fn check(id: &str, tier: Tier) -> i32 {
         machinery_fail = true;
     }
     for (g, ok) in &rep.guards {
-        // (a run whose explorations were cut short by the wall budget cannot be expected to reach every guard)
-        if !ok && !engine::explore_budget_exhausted() {
+        // (a run whose explorations were cut short - wall budget or a state cap - cannot be expected to reach every guard)
+        if !ok && !engine::explore_budget_exhausted() && rep.caps_hit.is_empty() {
             eprintln!("machinery: vacuity guard not reached: {}", g);
             machinery_fail = true;
         }
